@@ -270,7 +270,9 @@ def run_C20(tier, seed):
         model = random_history(jobs, rng, length=rng.choice([None, None, 1, 3]))
         d = Dispatcher(inst)
         replay(d, inst, model.history)
-        xlim = rng.choice([None, None, model.makespan() + rng.randint(1, 30)])
+        # no limit, a limit beyond the makespan, and a requested limit BELOW the makespan (the axis must end there)
+        xlim = rng.choice([None, None, model.makespan() + rng.randint(1, 30), max(1, model.makespan() // 2),
+                           max(1, model.makespan() - 1)])
         res.count("gantt-chart-shows-schedule")
         res.case((str(jobs), tuple(model.history), xlim))
         try:
